@@ -203,7 +203,7 @@ type opaqueError struct{ detail []string }
 func (e opaqueError) Error() string { return "injected opaque reader fault " + e.detail[0] }
 
 // ErrKinds is the number of injected error kinds.
-const ErrKinds = 6
+const ErrKinds = 7
 
 // MakeErr returns (error to inject, kind name).
 func MakeErr(kind int) (error, string) {
@@ -218,6 +218,11 @@ func MakeErr(kind int) (error, string) {
 		return io.ErrClosedPipe, "io.ErrClosedPipe"
 	case 4:
 		return opaqueError{[]string{"x"}}, "non-comparable-type"
+	case 5:
+		// io.Reader's contract: end of input is io.EOF itself, "not an error
+		// wrapping EOF, because callers will test for EOF using ==". An error
+		// that wraps io.EOF is therefore a failure like any other.
+		return fmt.Errorf("injected: connection reset while reading: %w", io.EOF), "wraps-io.EOF"
 	default:
 		return errDeadline, "deadline"
 	}
